@@ -489,6 +489,12 @@ func (group *Group) feedRtpPacket(pkt rtprtcp.RtpPacket) {
 	)
 
 	for s := range group.rtspSubSessionSet {
+		// 还没有收到play信令的session，rtp包发不出去（见 SubSession.WriteRtpPacket ），
+		// 所以也不能因为这个发不出去的关键帧就认为它已经不需要等待关键帧了
+		if s.Stage.Load() != rtsp.SubSessionStageReadPlay {
+			continue
+		}
+
 		// session的 ShouldWaitVideoKeyFrame 为false，那么可能有两种情况：
 		// 1. 对输入流做智能检测时，判定为流内没有视频
 		// 2. 该输出流已经发送过了GOP起始数据
